@@ -132,6 +132,12 @@ def build(rnd, k):
             off_expr = [('i32.const', off)]
         n = min(n, tsize - off)
         fl = [rnd.randrange(len(sigs)) for _ in range(n)]
+        if rnd.random() < 0.3 and tsize >= 24:
+            # a long run of one function followed by other entries (what a vtable filler or a default handler produces)
+            off = rnd.randint(0, tsize - 24)
+            off_expr = [('i32.const', off)]
+            run = rnd.randint(14, 20)
+            fl = [rnd.randrange(len(sigs))] * run + [rnd.randrange(len(sigs)) for _ in range(rnd.randint(1, 3))]
         segs.append((0, off_expr, fl))
         for i, f in enumerate(fl):
             slots[off + i] = f
